@@ -380,7 +380,20 @@ impl<'r> Gen<'r> {
         Some(match kind {
             S::Text => rng.pick_str(TEXTS).as_bytes().to_vec(),
             S::Unit => rng.pick_str(UNITS).as_bytes().to_vec(),
-            S::Zone => rng.pick_str(ZONES).as_bytes().to_vec(),
+            S::Zone => {
+                // any zone of the tz database, spelled as the full id, as everything after the
+                // first '/', or as the last segment (the city)
+                if rng.chance(1, 3) {
+                    rng.pick_str(ZONES).as_bytes().to_vec()
+                } else {
+                    let id = chrono_tz::TZ_VARIANTS[rng.usize(chrono_tz::TZ_VARIANTS.len())].name();
+                    match rng.below(3) {
+                        0 => id.as_bytes().to_vec(),
+                        1 => id[id.find('/').map_or(0, |i| i + 1)..].as_bytes().to_vec(),
+                        _ => id[id.rfind('/').map_or(0, |i| i + 1)..].as_bytes().to_vec(),
+                    }
+                }
+            }
             S::Key => rng.pick_str(KEYS).as_bytes().to_vec(),
             S::FilterText => {
                 if rng.chance(1, 2) {
@@ -915,6 +928,170 @@ pub fn sweep_errslot(prop: &str) -> Vec<Case> {
     cases
 }
 
+/// Borrowed entry pointers, one and two levels deep, used as entry arguments of every mutating
+/// call on their own root container and on another container, then read back where still valid.
+pub fn sweep_borrow(prop: &str) -> Vec<Case> {
+    let setup = || -> Vec<Op> {
+        vec![
+            Op::new(0, "haystack_value_from_zinc_string").h(&[0]).s(&[Some(b"[[10,[20,30,40],\"x\"],{a:[4,5] b:{c:1}},7,[[1],[2,3]]]")]),
+            Op::new(0, "haystack_value_from_zinc_string").h(&[1]).s(&[Some(b"{k:[1,[2]] m:{n:[3]} s:\"str\"}")]),
+            Op::new(0, "haystack_value_make_list").h(&[2]),
+            Op::new(0, "haystack_value_init").h(&[3]),
+        ]
+    };
+    // first level borrow into slot 0 (list) or slot 1 (dict)
+    let mut firsts: Vec<(String, Op)> = Vec::new();
+    for i in 0..4u64 {
+        firsts.push((format!("list[{i}]"), Op::new(0, "haystack_value_get_list_entry_at").h(&[0, 0]).n(&[i])));
+    }
+    for k in ["k", "m", "s"] {
+        firsts.push((format!("dict.{k}"), Op::new(0, "haystack_value_get_dict_entry").h(&[1, 0]).s(&[Some(k.as_bytes())])));
+    }
+    // second level through the first borrow (skipped by the simulator when the kinds do not fit)
+    let mut seconds: Vec<(String, Option<Op>)> = vec![("-".into(), None)];
+    for j in 0..3u64 {
+        seconds.push((format!("[{j}]"), Some(Op::new(0, "haystack_value_get_list_entry_at").h(&[BORROW_BASE, 1]).n(&[j]))));
+    }
+    for k in ["a", "b", "n"] {
+        seconds.push((format!(".{k}"), Some(Op::new(0, "haystack_value_get_dict_entry").h(&[BORROW_BASE, 1]).s(&[Some(k.as_bytes())]))));
+    }
+    let mut cases = Vec::new();
+    for (fname, first) in &firsts {
+        for (sname, second) in &seconds {
+            for which in [BORROW_BASE, BORROW_BASE + 1] {
+                let uses: Vec<(String, Op)> = vec![
+                    ("set root[0]".into(), Op::new(0, "haystack_value_set_list_entry_at").h(&[0, which]).n(&[0])),
+                    ("set root[1]".into(), Op::new(0, "haystack_value_set_list_entry_at").h(&[0, which]).n(&[1])),
+                    ("set root[3]".into(), Op::new(0, "haystack_value_set_list_entry_at").h(&[0, which]).n(&[3])),
+                    ("push root".into(), Op::new(0, "haystack_value_push_list_entry").h(&[0, which])),
+                    ("insert dict.k".into(), Op::new(0, "haystack_value_insert_dict_entry").h(&[1, which]).s(&[Some(b"k")])),
+                    ("insert dict.m".into(), Op::new(0, "haystack_value_insert_dict_entry").h(&[1, which]).s(&[Some(b"m")])),
+                    ("insert dict.new".into(), Op::new(0, "haystack_value_insert_dict_entry").h(&[1, which]).s(&[Some(b"new")])),
+                    ("push other".into(), Op::new(0, "haystack_value_push_list_entry").h(&[2, which])),
+                    ("grid rows".into(), Op::new(0, "haystack_value_make_grid_from_rows").h(&[4, which])),
+                    ("to zinc".into(), Op::new(0, "haystack_value_to_zinc_string").h(&[which, 0])),
+                    ("keys into root".into(), Op::new(0, "haystack_value_get_dict_keys").h(&[which, 0])),
+                ];
+                for (uname, use_op) in uses {
+                    let mut ops = setup();
+                    ops.push(first.clone());
+                    if let Some(s2) = second {
+                        ops.push(s2.clone());
+                    }
+                    ops.push(Op::new(0, "borrow_read").h(&[which - BORROW_BASE]));
+                    ops.push(use_op);
+                    // whatever is still valid is read again; the containers are encoded
+                    ops.push(Op::new(0, "borrow_read").h(&[0]));
+                    ops.push(Op::new(0, "borrow_read").h(&[1]));
+                    ops.push(Op::new(0, "haystack_value_to_zinc_string").h(&[0, 1]));
+                    ops.push(Op::new(0, "haystack_value_to_json_string").h(&[1, 2]));
+                    ops.push(Op::new(0, "last_error_message").h(&[3]));
+                    cases.push(history_case(prop, ops, format!("sweep:borrow {fname}{sname} use=b{} {uname}", which - BORROW_BASE)));
+                }
+            }
+        }
+    }
+    cases
+}
+
+/// Hostile text (NUL, empty, non-ASCII, astral, quotes, very long) in every string-bearing
+/// position of every kind, brought in through the Hayson decoder (the constructors cannot carry
+/// NUL), then every string getter, both encoders and the container accessors on it.
+pub fn sweep_hostile(prop: &str) -> Vec<Case> {
+    let long: String = "é".repeat(150);
+    let contents: Vec<String> = vec!["a\\u0000b".into(), "\\u0000".into(), "".into(), "é".into(), "\\ud83d\\ude00".into(), " ".into(), "a b".into(), "\\\"".into(), "\\\\".into(), "\\n".into(), "a,b".into(), "x:y".into(), long];
+    let positions: Vec<(&str, Box<dyn Fn(&str) -> String>)> = vec![
+        ("str", Box::new(|c| format!("\"{c}\""))),
+        ("ref-val", Box::new(|c| format!("{{\"_kind\":\"ref\",\"val\":\"{c}\"}}"))),
+        ("ref-dis", Box::new(|c| format!("{{\"_kind\":\"ref\",\"val\":\"r1\",\"dis\":\"{c}\"}}"))),
+        ("symbol", Box::new(|c| format!("{{\"_kind\":\"symbol\",\"val\":\"{c}\"}}"))),
+        ("uri", Box::new(|c| format!("{{\"_kind\":\"uri\",\"val\":\"{c}\"}}"))),
+        ("xstr-type", Box::new(|c| format!("{{\"_kind\":\"xstr\",\"type\":\"{c}\",\"val\":\"v\"}}"))),
+        ("xstr-val", Box::new(|c| format!("{{\"_kind\":\"xstr\",\"type\":\"Bin\",\"val\":\"{c}\"}}"))),
+        ("dict-key", Box::new(|c| format!("{{\"{c}\":1,\"b\":\"x\"}}"))),
+        ("nested-key", Box::new(|c| format!("{{\"a\":{{\"{c}\":{{\"_kind\":\"marker\"}}}}}}"))),
+        ("list-of", Box::new(|c| format!("[\"{c}\",{{\"_kind\":\"ref\",\"val\":\"{c}\"}},{{\"{c}\":2}}]"))),
+        ("col-name", Box::new(|c| format!("{{\"_kind\":\"grid\",\"meta\":{{\"ver\":\"3.0\"}},\"cols\":[{{\"name\":\"{c}\"}},{{\"name\":\"b\"}}],\"rows\":[{{\"{c}\":1,\"b\":2}}]}}"))),
+        ("grid-meta", Box::new(|c| format!("{{\"_kind\":\"grid\",\"meta\":{{\"ver\":\"3.0\",\"{c}\":\"{c}\"}},\"cols\":[{{\"name\":\"a\",\"meta\":{{\"{c}\":\"m\"}}}}],\"rows\":[{{\"a\":\"{c}\"}}]}}"))),
+        ("unit", Box::new(|c| format!("{{\"_kind\":\"number\",\"val\":1,\"unit\":\"{c}\"}}"))),
+        ("tz", Box::new(|c| format!("{{\"_kind\":\"dateTime\",\"val\":\"2021-01-02T03:04:05Z\",\"tz\":\"{c}\"}}"))),
+    ];
+    let getters = [
+        "haystack_value_get_str_value", "haystack_value_get_ref_value", "haystack_value_get_ref_dis", "haystack_value_get_symbol_value", "haystack_value_get_uri_value",
+        "haystack_value_get_xstr_type", "haystack_value_get_xstr_value", "haystack_value_get_number_unit", "haystack_value_get_datetime_timezone",
+        "haystack_value_to_zinc_string", "haystack_value_to_json_string",
+    ];
+    let mut cases = Vec::new();
+    for (pname, mk) in &positions {
+        for (ci, c) in contents.iter().enumerate() {
+            let doc = mk(c);
+            let mut ops = vec![
+                Op::new(0, "haystack_value_from_json_string").h(&[0]).s(&[Some(doc.as_bytes())]),
+                Op::new(0, "last_error_message").h(&[0]),
+                Op::new(0, "haystack_string_destroy").h(&[0]),
+                Op::new(0, "haystack_value_init").h(&[1]),
+                Op::new(0, "haystack_value_make_list").h(&[2]),
+                Op::new(0, "haystack_value_make_dict").h(&[3]),
+            ];
+            for g in getters {
+                ops.push(Op::new(0, g).h(&[0, 0]));
+                ops.push(Op::new(0, "haystack_string_destroy").h(&[0]));
+                ops.push(Op::new(0, "last_error_message").h(&[1]));
+                ops.push(Op::new(0, "haystack_string_destroy").h(&[1]));
+            }
+            // containers: keys listing, entries, rows; the value as an entry of other containers
+            ops.push(Op::new(0, "haystack_value_get_dict_keys").h(&[0, 1]));
+            ops.push(Op::new(0, "haystack_value_to_zinc_string").h(&[1, 0]));
+            ops.push(Op::new(0, "haystack_string_destroy").h(&[0]));
+            ops.push(Op::new(0, "haystack_value_get_grid_row_at").h(&[0, 1]).n(&[0]));
+            ops.push(Op::new(0, "haystack_value_to_zinc_string").h(&[1, 0]));
+            ops.push(Op::new(0, "haystack_string_destroy").h(&[0]));
+            ops.push(Op::new(0, "haystack_value_get_list_entry_at").h(&[0, 0]).n(&[1]));
+            ops.push(Op::new(0, "haystack_value_to_zinc_string").h(&[BORROW_BASE, 0]));
+            ops.push(Op::new(0, "haystack_string_destroy").h(&[0]));
+            ops.push(Op::new(0, "haystack_value_push_list_entry").h(&[2, 0]));
+            ops.push(Op::new(0, "haystack_value_insert_dict_entry").h(&[3, 0]).s(&[Some(b"k")]));
+            ops.push(Op::new(0, "haystack_value_to_zinc_string").h(&[2, 0]));
+            ops.push(Op::new(0, "haystack_value_to_json_string").h(&[3, 1]));
+            ops.push(Op::new(0, "last_error_message").h(&[2]));
+            cases.push(history_case(prop, ops, format!("sweep:hostile {pname} content#{ci}")));
+        }
+    }
+    cases
+}
+
+/// Every zone of the tz database, in three spellings, through the timestamp constructor, the
+/// accessors and both codecs.
+pub fn sweep_zone(prop: &str) -> Vec<Case> {
+    let mut cases = Vec::new();
+    for tz in chrono_tz::TZ_VARIANTS.iter() {
+        let id = tz.name();
+        let spellings = [id.to_string(), id[id.find('/').map_or(0, |i| i + 1)..].to_string(), id[id.rfind('/').map_or(0, |i| i + 1)..].to_string()];
+        for (si, sp) in spellings.iter().enumerate() {
+            if si > 0 && *sp == spellings[si - 1] {
+                continue;
+            }
+            let ops = vec![
+                Op::new(0, "haystack_value_make_date").h(&[0]).n(&[2021, 7, 4]),
+                Op::new(0, "haystack_value_make_time_millis").h(&[1]).n(&[12, 34, 56, 789]),
+                Op::new(0, "haystack_value_make_tz_datetime").h(&[2, 0, 1]).s(&[Some(sp.as_bytes())]),
+                Op::new(0, "haystack_value_get_datetime_timezone").h(&[2, 0]),
+                Op::new(0, "haystack_value_init").h(&[3]),
+                Op::new(0, "haystack_value_init").h(&[4]),
+                Op::new(0, "haystack_value_get_datetime_date").h(&[2, 3]).n(&[0]),
+                Op::new(0, "haystack_value_get_datetime_time").h(&[2, 4]).n(&[0]),
+                Op::new(0, "haystack_value_get_datetime_date").h(&[2, 3]).n(&[1]),
+                Op::new(0, "haystack_value_get_datetime_time").h(&[2, 4]).n(&[1]),
+                Op::new(0, "haystack_value_to_zinc_string").h(&[2, 1]),
+                Op::new(0, "haystack_value_to_json_string").h(&[2, 2]),
+                Op::new(0, "last_error_message").h(&[3]),
+            ];
+            cases.push(history_case(prop, ops, format!("sweep:zone {sp}")));
+        }
+    }
+    cases
+}
+
 // -------------------------------------------------------------------------------------------------
 
 pub fn ops_of(case: &Case) -> Vec<Op> {
@@ -951,13 +1128,20 @@ pub fn run_case(case: &Case, mode: Mode) -> Outcome {
             suspicious = r2.net_blocks.is_some_and(|n| n != 0);
         }
         let tainted = TAINTED.load(Ordering::Relaxed);
-        if suspicious || announce || (nth % 64 == 0 && !tainted) {
+        if tainted {
+            // a leak already exists in this process: LeakSanitizer would keep reporting it, so its
+            // answer carries no information any more; the block count alone decides here (and the
+            // driver re-confirms whatever it reports in a fresh process, where LeakSanitizer is asked)
+            if suspicious {
+                out.violate(
+                    "C18 lsan:leak capi-history".into(),
+                    format!("net live heap blocks after the history (run twice): {:?}; every handle and every returned string was destroyed exactly once", r.net_blocks),
+                );
+            }
+        } else if suspicious || announce || nth % 64 == 0 {
             if let Some(n) = capi::lsan_recoverable_check() {
                 out.probe("reach:lsan-check-run", 1);
-                // once a leak exists in this process LeakSanitizer keeps reporting it: later
-                // verdicts of the same process rest on the block count (and are re-confirmed by
-                // the driver in a fresh process before anything is reported)
-                if n != 0 && (suspicious || !tainted) {
+                if n != 0 {
                     TAINTED.store(true, Ordering::Relaxed);
                     out.violate(
                         "C18 lsan:leak capi-history".into(),
@@ -991,7 +1175,7 @@ impl CApi {
     }
 }
 
-const SWEEPS: &[&str] = &["sweep:null", "sweep:kind", "sweep:index", "sweep:errslot"];
+const SWEEPS: &[&str] = &["sweep:null", "sweep:kind", "sweep:index", "sweep:errslot", "sweep:borrow", "sweep:zone", "sweep:hostile"];
 /// sweeps are split into this many units so that they spread over the worker processes
 const SWEEP_PARTS: u64 = 8;
 
@@ -1024,6 +1208,9 @@ impl Engine for CApi {
                 "sweep:null" => sweep_null(prop),
                 "sweep:kind" => sweep_kind(prop),
                 "sweep:index" => sweep_index(prop),
+                "sweep:borrow" => sweep_borrow(prop),
+                "sweep:zone" => sweep_zone(prop),
+                "sweep:hostile" => sweep_hostile(prop),
                 _ => sweep_errslot(prop),
             };
             return Box::new(all.into_iter().enumerate().filter(move |(i, _)| *i as u64 % SWEEP_PARTS == part).map(|(_, c)| c));
@@ -1042,7 +1229,7 @@ impl Engine for CApi {
     }
 
     fn rule(&self) -> String {
-        let common = "one evaluation = one call history executed by 1-4 simulated caller threads (real OS threads, one token) against the real extern \"C\" functions, each call compared with the Rust API applied to shadow values; sweeps enumerate (function x pointer-parameter subset set to null), (function x handle parameter x fixture handle of every kind, called twice), (index function x boundary index pairs), (pairs of failing calls x caller threads x take orders x thread exit); seeded histories draw swarm weights per history (operation mix, fault rates for null / wrong kind / out-of-range / invalid UTF-8 / long text, thread count, switch rate); a history is non-trivial when at least one injected argument fault fired (null pointer, wrong-kind handle, or a call the model expects to fail); distinct = distinct explicit histories";
+        let common = "one evaluation = one call history executed by 1-4 simulated caller threads (real OS threads, one token) against the real extern \"C\" functions, each call compared with the Rust API applied to shadow values; sweeps enumerate (function x pointer-parameter subset set to null), (function x handle parameter x fixture handle of every kind, called twice), (index function x boundary index pairs), (pairs of failing calls x caller threads x take orders x thread exit), (borrowed entry pointers one and two levels deep x every mutating call on their own root and on another container), (every zone of the tz database x three spellings x timestamp constructor, accessors, codecs), (hostile text - NUL, empty, astral, quotes, long - in every string-bearing position of every kind x every string getter, both encoders, container accessors); seeded histories draw swarm weights per history (operation mix, fault rates for null / wrong kind / out-of-range / invalid UTF-8 / long text, thread count, switch rate); a history is non-trivial when at least one injected argument fault fired (null pointer, wrong-kind handle, or a call the model expects to fail); distinct = distinct explicit histories";
         if self.mode == Mode::Memory {
             format!("{common}; oracle here: AddressSanitizer silent, no abort/signal, LeakSanitizer recoverable check after every history, null arguments answered by sentinel + retrievable error")
         } else {
